@@ -13,6 +13,7 @@ fn api_entry(a: Api) -> &'static str {
         Api::From => "write::Dwarf::from",
         Api::StepRow => "ConvertUnit_stepwise_read_row",
         Api::StepSeq => "ConvertUnit_stepwise_read_sequence",
+        Api::Sched(_) => "ConvertLineProgram_read_row/read_sequence_schedule",
     }
 }
 
@@ -73,7 +74,7 @@ pub fn diff_kind(a: &str, b: &str) -> (String, String) {
     ("equal".into(), String::new())
 }
 
-fn dump_secs(secs: &Secs, big: bool) -> Result<Result<dump::DwarfD, String>, mcx::Panic> {
+pub fn dump_secs(secs: &Secs, big: bool) -> Result<Result<dump::DwarfD, String>, mcx::Panic> {
     mcx::guard(|| {
         let d = dump::load(secs, big);
         dump::dump_dwarf(&d, RefNaming::Index)
